@@ -40,9 +40,37 @@ func parseFile(rel string) *ast.File {
 	return f
 }
 
+// genFail aborts the extraction unit that is running; the other units still run.
+type genFail string
+
+// unit is the extraction running now ("" outside one); genErrors maps a unit to why it
+// could not be extracted. A unit is a Gen file name or "facts:<group>".
+var unit string
+var genErrors = map[string]string{}
+
 func fatal(format string, a ...interface{}) {
+	if unit != "" {
+		panic(genFail(fmt.Sprintf(format, a...)))
+	}
 	fmt.Fprintf(os.Stderr, "extract: "+format+"\n", a...)
 	os.Exit(1)
+}
+
+// guarded runs one extraction unit: what it cannot find in the source no longer stops
+// the others (check reports the failure for the properties that depend on the unit).
+func guarded(name string, f func()) {
+	unit = name
+	defer func() {
+		unit = ""
+		if r := recover(); r != nil {
+			if g, ok := r.(genFail); ok {
+				genErrors[name] = string(g)
+				return
+			}
+			genErrors[name] = fmt.Sprintf("extractor panic: %v", r)
+		}
+	}()
+	f()
 }
 
 func src(n ast.Node) string {
@@ -258,6 +286,16 @@ func switchCases(fd *ast.FuncDecl, nth int) []swCase {
 			return true
 		}
 		count++
+		out = casesOf(sw)
+		return false
+	})
+	return out
+}
+
+// casesOf lists the case clauses of one switch statement.
+func casesOf(sw *ast.SwitchStmt) []swCase {
+	var out []swCase
+	{
 		for _, st := range sw.Body.List {
 			cc := st.(*ast.CaseClause)
 			var c swCase
@@ -282,8 +320,7 @@ func switchCases(fd *ast.FuncDecl, nth int) []swCase {
 			c.Body = strings.Join(bs, "; ")
 			out = append(out, c)
 		}
-		return false
-	})
+	}
 	return out
 }
 
@@ -377,7 +414,7 @@ func main() {
 	if outDir == "" {
 		fatal("-out required")
 	}
-	genEncodings()
+	guarded("Encodings.lean", genEncodings)
 	genAll()
 	keys := make([]string, 0, len(facts))
 	for k := range facts {
@@ -386,4 +423,6 @@ func main() {
 	sort.Strings(keys)
 	fb, _ := json.MarshalIndent(facts, "", " ")
 	write("facts.json", string(fb))
+	eb, _ := json.MarshalIndent(genErrors, "", " ")
+	write("gen_errors.json", string(eb))
 }
